@@ -173,6 +173,41 @@ Qed.
 Lemma plain_batch0 L : Forall (fun rp : record * pos => plain_live (fst rp)) L -> Forall (fun r => r_batch r = 0) (map fst L).
 Proof. intros H. rewrite Forall_map. eapply Forall_impl; [|exact H]. intros rp [Hb _]. exact Hb. Qed.
 
+Lemma from_zero fs : from_ 0 fs = fs.
+Proof. unfold from_. induction fs as [|[i g] fs IH]; [reflexivity|]. cbn [filter fst]. destruct (0 <=? i) eqn:E; [|lia]. f_equal. exact IH. Qed.
+
+(* Open on a directory with a finished merge whose adoption has not started, or was interrupted at
+   any point (see load_merge_resume): the merge is adopted and the database holds the mapping the
+   rewritten files denote, updated by the files written after the merge *)
+Lemma open_pending c k md mid n j h MFull M0 PL M :
+  k_merge k = Some md -> m_marker md = Some mid -> 0 < mid -> 0 < n -> n <= mid -> j <= n ->
+  merged_ok MFull n -> m_files md = from_ j MFull ->
+  asc (k_data k) -> Forall file_ok (k_data k) ->
+  (forall x, x < j -> older_get (k_data k) x = older_get MFull x) ->
+  (0 < j -> forall x, n <= x -> x < mid -> older_get (k_data k) x = None) ->
+  (m_hint md = Some h \/ (m_hint md = None /\ k_hint k = Some h /\ j = n)) ->
+  hf_recs h = hint_of (recs_of MFull) -> Forall (fun rp => plain_live (fst rp)) (recs_of MFull) ->
+  s_apply_recs [] (files_log MFull) = M0 ->
+  files_log (from_ mid (k_data k)) = PL -> sreplay M0 [] PL = (M, []) ->
+  exists d' k' evs, db_open c k = (OpenOk d' k', evs) /\ LogInv d' M /\ k_merge k' = None /\
+    log d' = files_log MFull ++ PL /\ d_cfg d' = c.
+Proof.
+  intros Hm Hmk Hpos Hn0 Hn Hj Hmok Hmf Hasc Hok Hinst Hrem Hhloc Hhint Hpl Hden HPL Hsr.
+  destruct (load_merge_resume k md mid n j h MFull Hm Hmk Hpos Hn0 Hn Hj Hmok Hmf Hasc Hok Hinst Hrem Hhloc)
+    as (data2 & ev & Hload & A2 & B2 & Hbel & Hfrom & Hpart).
+  destruct (db_open_general c k (mkDisk data2 (Some h) None) mid ev Hload A2 B2) as (d1 & k2 & ev2 & Ho & HLO & Hlog' & Hcfg & Hk2).
+  { right. split; [exact Hpos|]. exists h, n. cbn [k_hint k_data]. rewrite Hbel. auto. }
+  cbn [k_data k_merge] in *.
+  assert (Hfl : files_log data2 = files_log MFull ++ PL).
+  { rewrite (split_at data2 n mid A2 Hn Hpart) at 1. rewrite files_log_app, Hbel, Hfrom, HPL. reflexivity. }
+  assert (Hsem : sreplay [] [] (files_log data2) = (M, [])).
+  { rewrite Hfl, sreplay_app, files_log_recs, (sreplay_plain _ [] [] (plain_batch0 _ Hpl)). cbn [fst snd].
+    rewrite <- files_log_recs, Hden. exact Hsr. }
+  rewrite Hsem in HLO. cbn [fst] in HLO.
+  exists d1, k2, ev2. split; [exact Ho|]. split; [split; [exact HLO|rewrite Hlog', Hsem; reflexivity]|].
+  split; [exact Hk2|]. split; [rewrite Hlog', Hfl; reflexivity|exact Hcfg].
+Qed.
+
 Lemma G_restart d k M c d' k' r evs :
   G d k M -> step (d, k) (OpRestart c) = ((d', k'), r, evs) -> G d' k' M /\ r = RErr None.
 Proof.
@@ -199,11 +234,6 @@ Proof.
     unfold MergeState. rewrite Hk2, Hk1'. left. exact Hig'.
   - (* a finished merge: adopted *)
     destruct Hmd as (n & h & Hmk & Hh & Hn0 & Hn & Hmok & Hhint & Hpl & Hden).
-    destruct (load_merge_adopt k1 md mid n h Hm1 Hmk Hpos Hh Hmok Hn0 Hn Hasc Hok)
-      as (data2 & ev & Hload & A2 & B2 & Hbel & Hfrom & Hpart).
-    destruct (db_open_general c k1 (mkDisk data2 (Some h) None) mid ev Hload A2 B2) as (d1 & k2 & ev2 & Ho & HLO & Hlog' & Hcfg & Hk2).
-    { right. split; [exact Hpos|]. exists h, n. cbn [k_hint k_data]. rewrite Hbel. auto. }
-    rewrite Ho in Hst. injection Hst as <- <- <- _. cbn [k_data k_merge] in *.
     assert (HPL : files_log (from_ mid (k_data k1)) = PL).
     { pose proof (split_at (k_data k1) mid mid Hasc ltac:(lia) ltac:(intros; lia)) as Hsp.
       pose proof Hlog as Hl. rewrite Hsp, files_log_app, Hlogd in Hl.
@@ -211,14 +241,11 @@ Proof.
       rewrite (lo_lookup_ext (k_data k1) (d_older d)) in Hl.
       - rewrite Hlo in Hl. apply app_inv_head in Hl. exact Hl.
       - intros x Hx. apply (Hor mid); lia. }
-    assert (Hfl : files_log data2 = files_log (m_files md) ++ PL).
-    { rewrite (split_at data2 n mid A2 Hn Hpart) at 1. rewrite files_log_app, Hbel, Hfrom, HPL. reflexivity. }
-    assert (Hsem : sreplay [] [] (files_log data2) = (M, [])).
-    { rewrite Hfl, sreplay_app, files_log_recs, (sreplay_plain _ [] [] (plain_batch0 _ Hpl)). cbn [fst snd].
-      rewrite <- files_log_recs, Hden. exact Hsr. }
-    rewrite Hsem in HLO. cbn [fst] in HLO.
-    split; [split; [split; [exact HLO|rewrite Hlog', Hsem; reflexivity]|]|reflexivity].
-    unfold MergeState. rewrite Hk2. exact I.
+    destruct (open_pending c k1 md mid n 0 h (m_files md) M0 PL M Hm1 Hmk Hpos Hn0 Hn ltac:(lia) Hmok
+                ltac:(rewrite from_zero; reflexivity) Hasc Hok ltac:(intros; lia) ltac:(intros; lia) (or_introl Hh)
+                Hhint Hpl Hden HPL Hsr) as (d1 & k2 & ev2 & Ho & HL1 & Hk2 & _).
+    rewrite Ho in Hst. injection Hst as <- <- <- _.
+    split; [split; [exact HL1|]|reflexivity]. unfold MergeState. rewrite Hk2. exact I.
 Qed.
 
 Theorem step_G d k M o d' k' r evs :
